@@ -1309,18 +1309,26 @@ class Trust(Packet):
         super(Trust, self).__init__()
         self.trustlevel = TrustLevel.Unknown
         self.trustflags = []
+        self._received = None
 
     def __bytearray__(self):
         _bytes = bytearray()
         _bytes += super(Trust, self).__bytearray__()
+        if self._received is not None:
+            # the format of trust packets is private to the implementation that wrote them: pass them through unchanged
+            _bytes += self._received
+            return _bytes
         _bytes += self.int_to_bytes(self.trustlevel + sum(self.trustflags), 2)
         return _bytes
 
     def parse(self, packet):
         super(Trust, self).parse(packet)
+        # consume exactly this packet, whatever its length
+        self._received = packet[:self.header.length]
+        del packet[:self.header.length]
+
         # self.trustlevel = packet[0] & 0x1f
-        t = self.bytes_to_int(packet[:2])
-        del packet[:2]
+        t = self.bytes_to_int(self._received[:2])
 
         self.trustlevel = t
         self.trustflags = t
